@@ -24,7 +24,7 @@ func VerifC14NodeLocalReads() {
 	rt.RegisterInterfaces(types.RegisterInterfaces)
 	name := rt.StrN("chainName", 3)
 	chain := "chain-a"
-	relayer := rt.Str("relayer")
+	relayer := sdk.AccAddress(rt.BytesN("relayer", 20)).String() // a registered relayer has a bech32 account address
 	which := rt.IntRange("read", 0, 3)
 	registered, counterparty := rt.Bool("relayer-registered"), rt.Str("relayer.counterparty")
 	node := func(answeredLocalReadsBefore bool) (string, bool, uint64) {
